@@ -15,7 +15,21 @@ import common
 import vloop
 
 PRIORITY = ["MRP", "DMAP", "Companion", "AirPlay", "RAOP"]   # order given by the property text (C01)
-NSTATUS = 3
+NSTATUS = 5
+# play statuses that agree in most fields and differ in exactly one (first, middle, last property)
+STATUS_KW = [
+    dict(title="t", position=1),
+    dict(title="t", position=2),
+    dict(title="t", position=1, artist="x"),
+    dict(title="t", position=1, itunes_store_identifier=7),
+    dict(title="t", position=1, media_type="video"),
+]
+# volumes: index -> value given to the facade, and the canonical index of the values that are EQUAL
+# for a listener (-0.0 == 0.0, 10 == 10.0)
+VOL_VALUES = [0.0, 10.0, 25.5, -0.0, 10]
+VOL_CANON = [0, 1, 2, 0, 1]
+# output-device lists: same identifier, different name / no name / extra device
+DEV_VALUES = [[], [("a", "1")], [("b", "1")], [(None, "1")], [("a", "1"), ("b", "2")]]
 
 
 class StepLoop(vloop.VLoop):
@@ -69,12 +83,33 @@ async def drive(loop, cfg, ops, manual):
     from pyatv.core import (AbstractPushUpdater, ProtocolStateDispatcher, SetupData, UpdatedState,
                             facade)
     from pyatv.core.protocol import MessageDispatcher
+    from pyatv.protocols.mrp import MrpPushUpdater
     from pyatv.settings import Settings
 
     got = []
     rank_of = {}
 
-    class Upd(AbstractPushUpdater):
+    class Meta:
+        """Stands in for MrpMetadata: playing() returns the next status or raises."""
+
+        def __init__(self):
+            self.next = None
+
+        async def playing(self):
+            if isinstance(self.next, Exception):
+                raise self.next
+            return self.next
+
+    class Psm:
+        listener = None
+
+    class Upd(MrpPushUpdater):
+        """The real MRP push updater (state_updated -> post_update / playstatus_error via
+        call_soon); only start/stop are replaced (the real ones talk to the player state manager)."""
+
+        def __init__(self, disp):
+            super().__init__(Meta(), Psm(), disp)
+
         @property
         def active(self):
             return False
@@ -85,10 +120,6 @@ async def drive(loop, cfg, ops, manual):
         def stop(self):
             pass
 
-        def post_error(self, exc):
-            # what DmapPushUpdater does on a playstatus error
-            self.loop.call_soon(self.listener.playstatus_error, self, exc)
-
     class Kbd(interface.Keyboard):
         pass
 
@@ -98,18 +129,31 @@ async def drive(loop, cfg, ops, manual):
 
     class Push(interface.PushListener):
         def playstatus_update(self, updater, playstatus):
-            got.append(["DPlay", rank_of[id(updater)], int(playstatus.title[1:])])
+            got.append(["DPlay", rank_of[id(updater)], status_index(playstatus)])
 
         def playstatus_error(self, updater, exception):
             got.append(["DErr", rank_of[id(updater)]])
 
     FOCUS = [KeyboardFocusState.Unknown, KeyboardFocusState.Unfocused, KeyboardFocusState.Focused]
-    DEVS = [[], [("a", "1")], [("a", "1"), ("b", "2")]]
-    VOLS = [0.0, 10.0, 25.5]
+    DEVS = DEV_VALUES
+    VOLS = VOL_VALUES
+
+    def mk_status(k):
+        kw = dict(STATUS_KW[k])
+        if "media_type" in kw:
+            kw["media_type"] = const.MediaType.Video
+        return interface.Playing(**kw)
+
+    def fields(p):
+        return tuple(getattr(p, prop) for prop in interface.Playing._PROPERTIES)
+    STATUS_FIELDS = [fields(mk_status(k)) for k in range(NSTATUS)]
+
+    def status_index(p):
+        return STATUS_FIELDS.index(fields(p))
 
     class Aud(interface.AudioListener):
         def volume_update(self, old_level, new_level):
-            got.append(["DVol", VOLS.index(old_level), VOLS.index(new_level)])
+            got.append(["DVol", VOL_CANON[VOLS.index(old_level)], VOL_CANON[VOLS.index(new_level)]])
 
         def outputdevices_update(self, old_devices, new_devices):
             k = lambda ds: DEVS.index([(d.name, d.identifier) for d in ds])
@@ -154,9 +198,11 @@ async def drive(loop, cfg, ops, manual):
         res = "ok"
         try:
             if k == "Post":
-                upds[op[1]].post_update(interface.Playing(title="s%d" % op[2], total_time=100 + op[2]))
+                upds[op[1]].metadata.next = mk_status(op[2])
+                await upds[op[1]].state_updated()       # never suspends: does not run the loop
             elif k == "Err":
-                upds[op[1]].post_error(RuntimeError("verif"))
+                upds[op[1]].metadata.next = RuntimeError("verif")
+                await upds[op[1]].state_updated()
             elif k == "Start":
                 pu.start()
             elif k == "Stop":
@@ -246,7 +292,7 @@ def oracle(cfg, ops, outs):
             for w in op[1]:
                 take[w] = None
         elif k == "Vol":
-            vq.append(op[2])
+            vq.append(VOL_CANON[op[2]])
         elif k == "Dev":
             dq.append(op[2])
         elif k == "Focus":
@@ -296,6 +342,10 @@ def oracle(cfg, ops, outs):
         exp = [c for c in changed if c[0] == main]
         if plays != exp:
             errs.append(("C10:playstatus:missed-or-extra-update", "delivered %r, changed posts of the active protocol %r" % (plays, exp)))
+        got_errs = [d[1] for _, ds in outs for d in ds if d[0] == "DErr"]
+        exp_errs = [op[1] for op in ops if op[0] == "Err" and op[1] == main]
+        if got_errs != exp_errs:
+            errs.append(("C10:playstatus_error:missed-or-extra-error", "errors delivered from %r, errors reported by the active protocol %r" % (got_errs, exp_errs)))
     seen = {}
     for key, w in errs:
         seen.setdefault(key, w)
@@ -312,7 +362,8 @@ def c_cfg(cfg):
 def c_op(op):
     k = op[0]
     if k in ("Post", "Vol", "Dev", "Focus"):
-        return "%s %d %d" % ({"Post": "Post", "Vol": "DispVol", "Dev": "DispDev", "Focus": "DispFocus"}[k], op[1], op[2])
+        v = VOL_CANON[op[2]] if k == "Vol" else op[2]      # values that are equal for a listener are one value
+        return "%s %d %d" % ({"Post": "Post", "Vol": "DispVol", "Dev": "DispDev", "Focus": "DispFocus"}[k], op[1], v)
     if k == "Err":
         return "Err %d" % op[1]
     if k == "Take":
@@ -351,10 +402,10 @@ def rand_ops(rng, cfg, length, manual):
     ops = []
     for _ in range(length):
         x = rng.random()
-        if x < 0.30:
+        if x < 0.28:
             # now and then an updater that is not registered with the facade (protocol not connected)
             ops.append(["Post", rng.choice(ranks + ranks + [rng.randrange(5)]), rng.randrange(NSTATUS)])
-        elif x < 0.34:
+        elif x < 0.36:
             ops.append(["Err", rng.choice(ranks)])
         elif x < 0.44:
             ops.append(["Start"])
@@ -367,9 +418,9 @@ def rand_ops(rng, cfg, length, manual):
         elif x < 0.68:
             ops.append(["Rel", rng.choice([["push"], ["kbd"], ["push", "kbd"], []])])
         elif x < 0.74:
-            ops.append(["Vol", rng.choice(ranks), rng.randrange(3)])
+            ops.append(["Vol", rng.choice(ranks), rng.randrange(len(VOL_VALUES))])
         elif x < 0.78:
-            ops.append(["Dev", rng.choice(ranks), rng.randrange(3)])
+            ops.append(["Dev", rng.choice(ranks), rng.randrange(len(DEV_VALUES))])
         elif x < 0.84:
             ops.append(["Focus", rng.choice(ranks + ranks + [rng.randrange(5)]), rng.randrange(3)])
         elif manual and x < 0.93:
@@ -398,12 +449,14 @@ def run(ctx):
     ctx.rule = ("(a) corpus; (b) for %d fixed configurations (1..3 protocols) EVERY op sequence of length <= %d over "
                 "{post(highest-priority proto, s0), post(same, s1), post(lowest-priority proto, s0), start, stop, takeover(lowest, push), "
                 "release, run-all}, as such on the real loop, and preceded by start on the real loop and on the stepped loop; "
-                "(b') every sequence of length <= %d ending in run-all over {volume(hi,0), volume(hi,1), volume(lo,1), devices(hi,2), "
-                "focus(hi,1), focus(lo,2), keyboard takeover(lo), release, run-all}; "
-                "(c) %d random sequences of length 4..16 over the full alphabet (post/error by any protocol with 3 statuses, start, stop, "
-                "close, takeover/release of push and/or keyboard by any protocol, volume/output-device/focus dispatch with 3 values each, "
+                "(b') every sequence of length <= %d ending in run-all over {volume(hi,0), volume(hi,1), volume(lo,int 10), volume(hi,-0.0), devices x3, "
+                "focus(hi,1), focus(lo,2), keyboard takeover(lo), release, run-all} - volumes include -0.0 and int 10 (equal to 0.0 / 10.0), device lists "
+                "agree on the identifier and differ in the name (renamed, unnamed); (b'') start followed by every sequence of length <= %d ending in "
+                "run-all over {error(hi), error(lo), post(hi), start, stop, close, takeover(lo), release, run-all} on both loops; "
+                "(c) %d random sequences of length 4..16 over the full alphabet (post/error by any protocol (real MrpPushUpdater.state_updated) with 5 statuses differing in one field each, start, stop, "
+                "close, takeover/release of push and/or keyboard by any protocol, volume/output-device/focus dispatch (5/5/3 values), "
                 "run-one (stepped loop only), run-all), random configuration, half on each loop.  distinct = (configuration, loop mode, sequence); "
-                "non-trivial = a user listener received at least one call" % (len(exh_cfgs), maxlen, maxlen, nrand))
+                "non-trivial = a user listener received at least one call" % (len(exh_cfgs), maxlen, maxlen, maxlen, nrand))
     cases = []
     shortest = {}      # violation key -> shortest failing sequence seen
 
@@ -436,13 +489,25 @@ def run(ctx):
     cfg = EXH_CFGS[2]
     kr = sorted(p[0] for p in cfg["protos"] if p[2])
     khi, klo = kr[0], kr[-1]
-    alpha = [["Vol", khi, 0], ["Vol", khi, 1], ["Vol", klo, 1], ["Dev", khi, 2], ["Focus", khi, 1], ["Focus", klo, 2],
-             ["Take", klo, ["kbd"]], ["Rel", ["kbd"]], ["RunAll"]]
+    alpha = [["Vol", khi, 0], ["Vol", khi, 1], ["Vol", klo, 4], ["Vol", khi, 3], ["Dev", khi, 1], ["Dev", khi, 2], ["Dev", klo, 3],
+             ["Focus", khi, 1], ["Focus", klo, 2], ["Take", klo, ["kbd"]], ["Rel", ["kbd"]], ["RunAll"]]
     for length in range(1, maxlen + 1):
         for seq in itertools.product(alpha, repeat=length):
             if seq[-1][0] != "RunAll":
                 continue            # same observations as the sequence without its unobserved tail
             one(cfg, list(seq), bool(length % 2), "exhaustive-comparers-len%d" % length)
+    # (b'') the error path: a protocol's updater reports an error (real MrpPushUpdater.state_updated ->
+    # loop.call_soon(listener.playstatus_error, ...)) around start / stop / close / takeover
+    cfg = EXH_CFGS[1]
+    pr = sorted(p[0] for p in cfg["protos"] if p[1])
+    hi, lo = pr[0], pr[-1]
+    alpha = [["Err", hi], ["Err", lo], ["Post", hi, 0], ["Start"], ["Stop"], ["Close"], ["Take", lo, ["push"]], ["Rel", ["push"]], ["RunAll"]]
+    for length in range(1, maxlen + 1):
+        for seq in itertools.product(alpha, repeat=length):
+            if seq[-1][0] != "RunAll":
+                continue
+            for manual in (False, True):
+                one(cfg, [["Start"]] + list(seq), manual, "exhaustive-errors-len%d" % length)
     ctx.exhaustive = True
     for i in range(nrand):
         cfg = rand_cfg(ctx.rng)
@@ -476,7 +541,7 @@ def run(ctx):
         "hand-written model coq/C10/Model.v of AbstractPushUpdater.post_update, FacadePushUpdater.start/stop/playstatus_update/playstatus_error, "
         "Relayer.main_instance/main_protocol/takeover/release, FacadeAppleTV.takeover (rollback), FacadeAudio._volume_changed/_output_devices_changed, "
         "FacadeKeyboard._focus_state_changed and its dispatch-time filter, MessageDispatcher.dispatch; tied by the differential run of this file, evaluated in Coq",
-        "mock protocols (real AbstractPushUpdater subclasses with recording-free start/stop, post_error as DmapPushUpdater does it), recording listeners",
+        "mock protocols whose push updater is the real MrpPushUpdater (state_updated -> post_update / call_soon(listener.playstatus_error)) with a fake metadata source and inert start/stop; recording listeners",
         "harness/vloop.py + StepLoop in harness/c10.py: in stepped mode call-backs scheduled by pyatv modules are run one at a time from a FIFO of the harness; "
         "in asyncio mode the genuine loop orders them",
     ]
